@@ -330,7 +330,7 @@ func CheckTree(prop string, c *TreeCase, st *Stats) *Violation {
 		return nil
 	}
 	if e.Known {
-		if KnownClass("C01", F3Class) {
+		if KnownClassAny(F3Class) {
 			st.Class("known:" + F3Class)
 			return nil
 		}
